@@ -68,11 +68,11 @@ static void cmd_chk(const std::vector<std::string>& t)
 		memcpy(from, data.data(), sz);
 		char *rb = from + off, *re = from + off + n, *end = base + total;
 		if (rb > base)
-			__asan_poison_memory_region(base, rb - base);
+			ASAN_POISON_MEMORY_REGION(base, rb - base);
 		if (end > re)
-			__asan_poison_memory_region(re, end - re);
+			ASAN_POISON_MEMORY_REGION(re, end - re);
 		ret = do_chksum(from, sz, off, len);
-		__asan_unpoison_memory_region(base, total);
+		ASAN_UNPOISON_MEMORY_REGION(base, total);
 		free(base);
 	}
 	pj::Ev("Chk").s("mode", mode).i("sz", sz).i("off", off).i("n", len).i("ret", ret).emit();
